@@ -257,23 +257,11 @@ def render_floats(case):
         # position decided by float.py and the rank of this call (the order in which floats are placed)
         placed[id(new)] = (new.position_x, new.position_y, len(placed), stale, via)
         return new
-    from weasyprint.layout import inline as il
-    ws_shift = {}
-    orig_rlw = il.remove_last_whitespace
-
-    def logging_remove_last_whitespace(context, line):
-        before = [(c, c.position_x) for c in line.children]
-        orig_rlw(context, line)
-        moved = [c.position_x - x for c, x in before if c.position_x != x]
-        if moved:
-            ws_shift[id(line)] = moved[0]        # the rtl branch translated the children of the line
     fl.find_float_position = logging_find_float_position
-    il.remove_last_whitespace = logging_remove_last_whitespace
     try:
         pages = render_pages(case['html'])
     finally:
         fl.find_float_position = orig
-        il.remove_last_whitespace = orig_rlw
     recs = []
     counter = [0]
     # source (document) order of the elements
@@ -284,8 +272,8 @@ def render_floats(case):
             src[id(el)] = i
 
     def content_rect(line):
-        """the extent of the in-flow inline content of a line box (the LineBox rectangle itself is not updated
-        when a float met in the line pushes the text)"""
+        """the extent of the visible in-flow inline content of a line box (the LineBox rectangle may still hold a
+        collapsible space kept at the end of the text when an out-of-flow box follows it in the line: finding F203)"""
         xs = []
 
         def go(b):
@@ -364,7 +352,6 @@ def render_floats(case):
                     for c in b.children:
                         scan(c)
                     rec['float_after_content'] = after
-                    rec['ws_shift'] = ws_shift.get(id(b), 0)
                 if kind == 'float':
                     pl = placed.get(id(b))
                     rec['placed'] = pl[:2] if pl else None
